@@ -178,6 +178,13 @@ impl<'a> Pratt<'a> {
             Some(Tok::Open(c)) => {
                 let c = *c;
                 self.pos += 1;
+                // an empty bracket pair is an operand all the same
+                if let Some(Tok::Close(k)) = self.peek() {
+                    if (c == '(' && *k == ')') || (c == '{' && *k == '}') {
+                        self.pos += 1;
+                        return Ok(Sx::node(if c == '(' { "Group" } else { "NestedExpression" }, None, None));
+                    }
+                }
                 let inner = self.expr(TOP)?;
                 match self.peek() {
                     Some(Tok::Close(k)) if (c == '(' && *k == ')') || (c == '{' && *k == '}') => {
